@@ -1,5 +1,5 @@
 (* C15 - error messages locate the offending text in the caller's own string. *)
-From Spdx Require Import Props.Shipped Spec.Lex Proofs.ScanRef Proofs.Offsets Proofs.ApiFacts.
+From Spdx Require Import Props.Shipped Spec.Lex Proofs.ScanRef Proofs.Offsets Proofs.ApiFacts Proofs.Unknown.
 Local Open Scope list_scope.
 
 Definition located (s : str) (e : err) : Prop :=
@@ -70,6 +70,37 @@ Example C15_example :
   /\ parse T0 (s2l "(MIT-or-later OR GPL-2.0+) AND LicenseRef-") = Err (EExpectedId 42).
 Proof. vm_compute. split; reflexivity. Qed.
 
+(* The converse for unknown ids: an id word that no lookup rule recognises (Proofs/Unknown.v: unknown_word) is
+   reported - with exactly that word and exactly its offset - wherever it stands: first in the text, after a space, or
+   after an opening parenthesis, provided the text before it tokenises.  So the error is not merely located somewhere
+   in the string, it names the first offending word. *)
+Lemma parse_ref_err s e : s <> [] -> ref_tokens T0 s = Err e -> parse T0 s = Err e.
+Proof. intros N H. unfold parse. destruct s; [contradiction|]. rewrite (scan_refines T0 HT0), H. reflexivity. Qed.
+Theorem C15_unknown_word_first sp w b : unknown_word T0 w b -> Forall (fun c => is_space c = true) sp ->
+  parse T0 (sp ++ w ++ b) = Err (EUnknownLicense w (length sp)).
+Proof.
+  intros U Fs. apply parse_ref_err; [destruct U as [N _]; destruct sp; [destruct w; [contradiction|discriminate]|discriminate]|].
+  exact (unknown_word_first T0 HT0 sp w b U Fs).
+Qed.
+Theorem C15_unknown_word_after_space a sp w b ts : ref_tokens T0 a = Ok ts -> unknown_word T0 w b -> Forall (fun c => is_space c = true) sp ->
+  parse T0 (a ++ " "%char :: sp ++ w ++ b) = Err (EUnknownLicense w (length a + 1 + length sp)).
+Proof.
+  intros Ha U Fs. apply parse_ref_err; [destruct a; discriminate|]. exact (unknown_word_after_space T0 HT0 a sp w b ts Ha U Fs).
+Qed.
+Theorem C15_unknown_word_after_paren a sp w b ts : ref_tokens T0 a = Ok ts -> unknown_word T0 w b -> Forall (fun c => is_space c = true) sp ->
+  parse T0 (a ++ "("%char :: sp ++ w ++ b) = Err (EUnknownLicense w (length a + 1 + length sp)).
+Proof.
+  intros Ha U Fs. apply parse_ref_err; [destruct a; discriminate|]. exact (unknown_word_after_paren T0 HT0 a sp w b ts Ha U Fs).
+Qed.
+(* the hypotheses are met: FOO in "MIT AND (FOO OR ISC)" *)
+Example C15_unknown_word_nonvacuous :
+  unknown_word T0 (s2l "FOO") (s2l " OR ISC)") /\ ref_tokens T0 (s2l "MIT AND ") = Ok [TLic (s2l "MIT"); TOp OAnd]
+  /\ parse T0 (s2l "MIT AND (FOO OR ISC)") = Err (EUnknownLicense (s2l "FOO") 9).
+Proof.
+  split; [|split; [vm_compute; reflexivity|vm_compute; reflexivity]].
+  unfold unknown_word. repeat split; try discriminate; try (vm_compute; reflexivity). repeat constructor.
+Qed.
+
 (* axioms the property theorems of this file depend on (one traversal for all of them) *)
-Definition C15_theorems := (@C15_parse, @C15_extract, @C15_satisfies_expression, @C15_satisfies_allowed).
+Definition C15_theorems := (@C15_parse, @C15_extract, @C15_satisfies_expression, @C15_satisfies_allowed, @C15_unknown_word_first, @C15_unknown_word_after_space, @C15_unknown_word_after_paren).
 Redirect "assumptions/C15" Print Assumptions C15_theorems.
